@@ -105,6 +105,8 @@ func run(c *vf.Ctx) {
 	c.Require("shapes_with_map_lexical_ordering_explicitly_false", c.Pick(100, 2000))
 	c.Require("shapes_with_map_lexical_ordering_explicitly_true", c.Pick(100, 2000))
 	c.Require("toplevel_with_type_settings_cases", c.Pick(20000, 400000))
+	c.Require("arena_backed_custom_values_encoded", c.Pick(2000, 20000))
+	c.Require("arena_backed_custom_map_keys_encoded", c.Pick(500, 5000))
 	c.Require("feature_pairs", 90)
 	c.Require("stream_cases", 300)
 	c.Require("stream_sequences", c.Pick(12000, 240000))
